@@ -55,3 +55,24 @@ int entry(Reader &r, Node &n, Visitor *v) {
   return r.selfRecursive() + r.mutualA() + r.guardedInline() + r.guardedRaii() + r.guardTooLate();
 }
 }
+
+// Second control: a visitor that applies accept() to a node it fetched from a table instead of to a child of the node it is
+// visiting.  The cycle still passes through accept(), but nothing bounds it by the depth of the tree: UNBOUNDED.
+namespace fixture2 {
+struct Node;
+struct Visitor { virtual void visit(Node &) = 0; virtual ~Visitor() {} };
+struct Node {
+  Node *child = nullptr;
+  virtual void accept(Visitor *v) { v->visit(*this); if (child) child->accept(v); }
+  virtual ~Node() {}
+};
+struct Table { Node *slots[4]; Node *find(int i) { return slots[i & 3]; } };
+struct Resolver : Visitor {
+  Table *table;
+  void visit(Node &n) override {
+    Node *other = table->find(1);
+    if (other) other->accept(this);      // jump: `other` is not a child of n
+  }
+};
+int entry(Node &n, Resolver *r) { n.accept(r); return 0; }
+}
